@@ -463,6 +463,10 @@ class Interp:
                 return Record("type", {"__qualname__": obj.cls_name, "__name__": obj.cls_name})
             if a in obj.fields:
                 return obj.fields[a]
+            classes = obj.classes if obj.classes is not None else self.classes
+            meth = classes.get(obj.cls_name, {}).get(a)
+            if meth is not None:
+                return ("bound", obj, meth)
             raise Raised("AttributeError", (a,))
         if isinstance(obj, ClassRef):
             if a in ("__name__", "__qualname__"):
@@ -488,6 +492,8 @@ class Interp:
             return ("dictmethod", obj, a)
         if isinstance(obj, list) and a in ("append", "extend", "index", "count"):
             return ("listmethod", obj, a)
+        if isinstance(obj, (str, int, float, bool, type(None), list, tuple, dict)) and not hasattr(obj, a):
+            raise Raised("AttributeError", (f"'{type(obj).__name__}' object has no attribute '{a}'",))
         raise AnalysisError(f"{self.name}:{n.lineno}: attribute .{a} on {type(obj).__name__} "
                             "is outside the subset")
 
@@ -571,7 +577,11 @@ class Interp:
         kwargs = {}
         for k in n.keywords:
             if k.arg is None:
-                raise AnalysisError(f"{self.name}: **kwargs call")
+                d = self.eval(k.value, env)
+                if not isinstance(d, dict) or not all(isinstance(x, str) for x in d):
+                    raise AnalysisError(f"{self.name}: ** of a non-dict in a call")
+                kwargs.update(d)
+                continue
             kwargs[k.arg] = self.eval(k.value, env)
         return self.apply(f, args, kwargs)
 
@@ -610,6 +620,8 @@ class Interp:
                 return Record(f[1], {"args": tuple(args)})
             if tag == "host":
                 return f[1](*args, **kwargs)
+            if tag == "bound":
+                return self.call(f[2], [f[1], *args], kwargs)
         raise AnalysisError(f"{self.name}: call of {f!r} is outside the subset")
 
     def builtin(self, name, args, kwargs):
